@@ -148,7 +148,7 @@ impl Action {
 
 // ---------------------------------------------------------------- effect / event types
 #[derive(Clone, Debug, PartialEq, Serialize, Deserialize)]
-struct Op { tag: u64, val: u64 }
+pub struct Op { pub tag: u64, pub val: u64 }
 impl Operation for Op { type Output = u64; }
 enum Eff { Op(Request<Op>), Wrap(u64, Box<Eff>) }
 impl From<Request<Op>> for Eff { fn from(r: Request<Op>) -> Self { Eff::Op(r) } }
@@ -162,7 +162,7 @@ impl Eff {
     }
 }
 #[derive(Clone, Debug, PartialEq, Serialize, Deserialize)]
-struct Ev { tag: u64, val: u64, maps: Vec<u64> }
+pub struct Ev { pub tag: u64, pub val: u64, pub maps: Vec<u64> }
 type Ctx = CommandContext<Eff, Ev>;
 type C = Command<Eff, Ev>;
 
@@ -249,7 +249,7 @@ fn build(c: &Cmd, env0: &Env, aborts: &Aborts) -> C {
 }
 
 // ---------------------------------------------------------------- generator
-struct Gen { rng: Rng, next_tag: u64, next_name: u64, names: Vec<u64>, ev_tags: Vec<u64> }
+struct Gen { rng: Rng, next_tag: u64, next_name: u64, names: Vec<u64>, ev_tags: Vec<u64>, legacy: bool }
 impl Gen {
     fn expr(&mut self, nvars: usize) -> Expr {
         match self.rng.below(6) {
@@ -265,7 +265,8 @@ impl Gen {
     fn task(&mut self, budget: &mut i64, nvars: usize, handles: &mut Vec<usize>, depth: u32) -> Task {
         *budget -= 1;
         if *budget <= 0 { return Task::Ret; }
-        let r = self.rng.below(100);
+        let mut r = self.rng.below(100);
+        if self.legacy && (matches!(r, 14..=17) || r >= 84 && r <= 95 || r >= 98) { r = 20 + r % 40; }   // no join!/select!/handles in the legacy fragment
         match r {
             0..=13 => Task::Ret,
             14..=15 => { let t1 = self.tag(); let t2 = self.tag(); let e1 = self.expr(nvars); let e2 = self.expr(nvars);
@@ -621,6 +622,130 @@ fn run_hosts(idx: usize, seed: u64, g: &mut Gen, depth: u32, nsteps: usize) -> S
         c.size(), c.depth(), h, ah)
 }
 
+
+// ---------------------------------------------------------------- legacy capability API host
+mod legacy {
+    use super::*;
+    use crux_core::capability::CapabilityContext;
+    use crux_core::macros::{Capability, Effect};
+
+    #[derive(Capability)]
+    pub struct Leg<Ev> { context: CapabilityContext<Op, Ev> }
+    impl<Ev: 'static> Leg<Ev> {
+        pub fn new(context: CapabilityContext<Op, Ev>) -> Self { Self { context } }
+    }
+    impl Leg<Ev> {
+        pub fn run(&self, t: Task, env: Vec<u64>) {
+            let ctx = self.context.clone();
+            self.context.spawn(async move { let mut e = LEnv { vars: env }; lexec(&t, &mut e, &ctx).await });
+        }
+    }
+    pub struct LEnv { vars: Vec<u64> }
+    impl LEnv { fn set(&mut self, x: usize, v: u64) { while self.vars.len() <= x { self.vars.push(0); } self.vars[x] = v; } }
+
+    fn lexec<'a>(t: &'a Task, env: &'a mut LEnv, ctx: &'a CapabilityContext<Op, Ev>) -> BoxFuture<'a, ()> {
+        async move {
+            let mut cur = t;
+            loop {
+                match cur {
+                    Task::Ret => return,
+                    Task::Emit(tg, e, k) => { ctx.update_app(Ev { tag: *tg, val: e.eval(&env.vars), maps: vec![] }); cur = k; }
+                    Task::Notify(tg, e, k) => { ctx.notify_shell(Op { tag: *tg, val: e.eval(&env.vars) }).await; cur = k; }
+                    Task::Req(tg, e, x, k) => { let out = ctx.request_from_shell(Op { tag: *tg, val: e.eval(&env.vars) }).await; env.set(*x, out); cur = k; }
+                    Task::ForEach(tg, e, x, body, k) => {
+                        let mut stream = ctx.stream_from_shell(Op { tag: *tg, val: e.eval(&env.vars) });
+                        while let Some(out) = stream.next().await { env.set(*x, out); lexec(body, env, ctx).await; }
+                        drop(stream);
+                        cur = k;
+                    }
+                    Task::Spawn(child, _h, k) => {
+                        let child = (**child).clone(); let vars = env.vars.clone(); let c2 = ctx.clone();
+                        ctx.spawn(async move { let mut e = LEnv { vars }; lexec(&child, &mut e, &c2).await });
+                        cur = k;
+                    }
+                    Task::Yield(n, k) => { YieldN(*n).await; cur = k; }
+                    Task::Join(_, k) | Task::AbortT(_, k) => { cur = k; }
+                    Task::Both(_, _, _, _, _, _, k) | Task::Race(_, _, _, _, _, k) => { cur = k; }
+                }
+            }
+        }.boxed()
+    }
+
+    #[derive(Effect)]
+    pub struct Capabilities { pub leg: Leg<Ev> }
+
+    pub static LHANDLERS: Mutex<Vec<(u64, Vec<Task>)>> = Mutex::new(Vec::new());
+    #[derive(Default)]
+    pub struct LegacyApp;
+    impl crux_core::App for LegacyApp {
+        type Event = Ev; type Model = Vec<Ev>; type ViewModel = Vec<Ev>; type Capabilities = Capabilities; type Effect = Effect;
+        fn update(&self, event: Ev, model: &mut Vec<Ev>, caps: &Capabilities) -> Command<Effect, Ev> {
+            model.push(event.clone());
+            if event.maps.is_empty() {
+                for (t, ts) in LHANDLERS.lock().unwrap().iter() {
+                    if *t == event.tag { for task in ts { caps.leg.run(task.clone(), vec![event.val]); } break; }
+                }
+            }
+            Command::done()
+        }
+        fn view(&self, model: &Vec<Ev>) -> Vec<Ev> { model.clone() }
+    }
+
+    pub struct LHeld { pub tag: u64, pub val: u64, pub req: Option<Request<Op>> }
+    fn lfind(held: &[LHeld], tag: u64, val: u64, occ: u64) -> Option<usize> {
+        let mut n = 0;
+        for (i, h) in held.iter().enumerate() { if h.tag == tag && h.val == val { if n == occ { return Some(i); } n += 1; } }
+        None
+    }
+    fn loeffs(effs: Vec<Effect>, held: &mut Vec<LHeld>) -> String {
+        let mut out = vec![];
+        for e in effs { let Effect::Leg(r) = e; out.push(format!("mkOE {} {} [] KNever", r.operation.tag, r.operation.val));
+            held.push(LHeld { tag: r.operation.tag, val: r.operation.val, req: Some(r) }); }
+        coq_list(out)
+    }
+    pub fn run_legacy(hs: &[(u64, Vec<Task>)], rng: &mut Rng, nsteps: usize) -> (Vec<Action>, Vec<String>) {
+        *LHANDLERS.lock().unwrap() = hs.to_vec();
+        let core: Core<LegacyApp> = Core::new();
+        let ev_tags: Vec<u64> = hs.iter().map(|(t, _)| *t).collect();
+        let mut held: Vec<LHeld> = vec![];
+        let mut acts = vec![]; let mut obs = vec![];
+        let total = nsteps + 2;
+        let probe_all = rng.coin(1, 2);
+        for i in 0..total {
+            let view: Vec<Held> = held.iter().map(|h| Held { tag: h.tag, val: h.val, req: None }).collect();
+            let live: Vec<bool> = held.iter().map(|h| h.req.is_some()).collect();
+            let a = if i == 0 { Action::Event(ev_tags[0], rng.below(4)) }
+                    else if i == total - 1 { Action::Event(99, 0) }
+                    else if probe_all && !matches!(acts[i - 1], Action::Event(99, 0)) { Action::Event(99, 0) }
+                    else {
+                        // same chooser as the other hosts, on a view of what is held
+                        let r = rng.below(100);
+                        let livei: Vec<usize> = live.iter().enumerate().filter(|(_, l)| **l).map(|(i, _)| i).collect();
+                        if r < 25 || view.is_empty() { if rng.coin(2, 3) { Action::Event(*rng.pick(&ev_tags), rng.below(4)) } else { Action::Event(99, 0) } }
+                        else if r < 80 { let i = if !livei.is_empty() && rng.coin(5, 6) { *rng.pick(&livei) } else { rng.below(view.len() as u64) as usize };
+                                         Action::Resolve(view[i].tag, view[i].val, occ_of(&view, i), rng.below(50)) }
+                        else if r < 93 { let i = if !livei.is_empty() && rng.coin(5, 6) { *rng.pick(&livei) } else { rng.below(view.len() as u64) as usize };
+                                         Action::DropReq(view[i].tag, view[i].val, occ_of(&view, i)) }
+                        else { Action::Event(99, 0) }
+                    };
+            let o = match &a {
+                Action::Event(t, v) => { let es = core.process_event(Ev { tag: *t, val: *v, maps: vec![] }); let e = loeffs(es, &mut held); format!("OCall 0 {} {}", e, oevs(&core.view())) }
+                Action::Resolve(t, v, o, out) => match lfind(&held, *t, *v, *o) {
+                    Some(i) if held[i].req.is_some() => match core.resolve(held[i].req.as_mut().unwrap(), *out) {
+                        Ok(es) => { let e = loeffs(es, &mut held); format!("OCall 0 {} {}", e, oevs(&core.view())) }
+                        Err(err) => format!("OCall {} [] {}", rcode(Err(err)), oevs(&core.view())),
+                    },
+                    _ => "OResolve 3".into(),
+                },
+                Action::DropReq(t, v, o) => { if let Some(i) = lfind(&held, *t, *v, *o) { held[i].req = None; } "ONone".into() }
+                _ => "ONone".into(),
+            };
+            acts.push(a); obs.push(o);
+        }
+        (acts, obs)
+    }
+}
+
 fn json_str(s: &str) -> String { format!("\"{}\"", s.replace('\\', "\\\\").replace('"', "\\\"")) }
 
 fn main() {
@@ -632,8 +757,9 @@ fn main() {
     let mode: String = args.get(4).cloned().unwrap_or_else(|| "mix".into());
     for idx in 0..count {
         // one independent generator state per case so that a single case can be regenerated
-        let mut g = Gen { rng: Rng::new(seed.wrapping_mul(1_000_003).wrapping_add(idx as u64)), next_tag: 0, next_name: 0, names: vec![], ev_tags: vec![] };
+        let mut g = Gen { rng: Rng::new(seed.wrapping_mul(1_000_003).wrapping_add(idx as u64)), next_tag: 0, next_name: 0, names: vec![], ev_tags: vec![], legacy: false };
         let core_host = idx % 3 == 2;
+        let legacy_host = idx % 6 == 5;
         let depth = match g.rng.below(10) { 0..=2 => 0, 3..=5 => 1, 6..=7 => 2, 8 => 3, _ => 4 };
         let nsteps = 4 + g.rng.below(14) as usize;
         if only.is_some() && only != Some(idx) { continue; }
@@ -643,6 +769,25 @@ fn main() {
                 Ok(l) => println!("{}", l),
                 Err(_) => println!("{{\"idx\":{},\"seed\":{},\"mode\":\"hosts\",\"panic\":true}}", idx, seed),
             }
+            continue;
+        }
+        if legacy_host && mode == "mix" {
+            let r = std::panic::catch_unwind(std::panic::AssertUnwindSafe(|| {
+                g.legacy = true;
+                let n = 1 + g.rng.below(3);
+                let hs: Vec<(u64, Vec<Task>)> = (1..=n).map(|t| { g.ev_tags = (t + 1..=n).collect();
+                    let k = 1 + g.rng.below(3); (t, (0..k).map(|_| { let b = 2 + g.rng.below(7) as i64; g.top_task(b, 1) }).collect()) }).collect();
+                let mut rng = g.rng.clone();
+                let (acts, obs) = legacy::run_legacy(&hs, &mut rng, nsteps);
+                let mut h = HashMap::new(); for (_, ts) in &hs { for t in ts { t.hist(&mut h); } }
+                let mut ah: HashMap<&str, u64> = HashMap::new(); for a in &acts { *ah.entry(a.name()).or_default() += 1; }
+                let hcoq = coq_list(hs.iter().map(|(t, ts)| format!("({}, {})", t, coq_list(ts.iter().map(|x| x.coq()).collect()))).collect());
+                format!("{{\"idx\":{},\"seed\":{},\"drained\":false,\"host\":\"legacy\",\"prog\":\"c_done\",\"handlers\":{},\"acts\":{},\"impl\":{},\"size\":{},\"depth\":0,\"hist\":{:?},\"ahist\":{:?}}}",
+                    idx, seed, json_str(&hcoq), json_str(&coq_list(acts.iter().map(|a| a.coq()).collect())), json_str(&coq_list(obs)),
+                    hs.iter().map(|(_, ts)| ts.iter().map(|t| t.size()).sum::<usize>()).sum::<usize>(), h, ah)
+            }));
+            match r { Ok(l) => println!("{}", l),
+                      Err(_) => println!("{{\"idx\":{},\"seed\":{},\"drained\":false,\"host\":\"legacy\",\"prog\":\"c_done\",\"handlers\":\"[]\",\"acts\":\"[AIsDone]\",\"impl\":\"[OPanic]\",\"size\":0,\"depth\":0,\"hist\":{{}},\"ahist\":{{}},\"panic\":true}}", idx, seed) }
             continue;
         }
         let line = std::panic::catch_unwind(std::panic::AssertUnwindSafe(|| if !core_host {
